@@ -554,9 +554,22 @@ def main(argv=None):
     except subprocess.TimeoutExpired as e:
         print("MACHINERY-FAILURE property=%s: timeout %s" % (pid, e), file=sys.stderr, flush=True)
         rc = 2
+    except Exception as e:       # anything else that goes wrong in the machinery (out of processes / memory / disk, a malformed file ..)
+        import traceback         # is a failure of the machinery, never a verdict: exit 2, not Python's exit 1
+        traceback.print_exc()
+        print("MACHINERY-FAILURE property=%s: %s: %s" % (pid, type(e).__name__, e), file=sys.stderr, flush=True)
+        rc = 2
     finally:
         if not a.keep:
             ctx.cleanup()
         else:
             print("scratch kept:", ctx.scratch)
+    if rc == 2 and not a.replay and not os.environ.get("VERIF_RETRIED"):
+        # a failure of the machinery (a killed or starved process, a timeout on a loaded machine ..) is no verdict; many are transient:
+        # the whole check is run ONCE more, from scratch, after a pause.  A second failure stands (exit 2).
+        print("MACHINERY-FAILURE property=%s: running the check once more in 30 s" % pid, file=sys.stderr, flush=True)
+        time.sleep(30)
+        os.environ["VERIF_RETRIED"] = "1"
+        sys.stdout.flush()
+        os.execv(sys.executable, [sys.executable, os.path.join(os.path.dirname(os.path.dirname(os.path.abspath(__file__))), "bin", "check")] + list(argv if argv is not None else sys.argv[1:]))
     sys.exit(rc)
